@@ -4,7 +4,8 @@ cd "$(dirname "$0")/.." || exit 2
 TIER=${1:-quick}
 mkdir -p .work/logs
 rc=0
-for p in $(python3 -c "import json;print(' '.join(c['property_id'] for c in json.load(open('MANIFEST.json'))['checks']))" 2>/dev/null || python3 -c "import json;m=json.load(open('MANIFEST.json'));print(' '.join(sorted(m.get('properties',m.get('checks',{})).keys())))"); do
+PIDS=${PIDS:-$(python3 -c "import json;print(' '.join(c['property_id'] for c in json.load(open('MANIFEST.json'))['checks']))")}
+for p in $PIDS; do
   python3 tools/check.py $p --tier $TIER > .work/logs/$p.$TIER.log 2>&1; r=$?
   [ $r -ne 0 ] && rc=1
   echo "$p rc=$r $(grep -c '^KNOWN-FINDING' .work/logs/$p.$TIER.log) known; $(grep "$p $TIER:" .work/logs/$p.$TIER.log)"
